@@ -116,7 +116,9 @@ def _enc(o):
         return [_enc(x) for x in o]
     if isinstance(o, dict):
         return {k: _enc(v) for k, v in o.items()}
-    return o
+    if o is None or isinstance(o, (str, int, float, bool)):
+        return o
+    return repr(o)
 
 
 def _dec(o):
